@@ -222,13 +222,16 @@ class Runner:
                      + test_src + "\n}\n")
         outcome = {}
         for prof in ("dev", "release"):
-            cmd = ["cargo", "kani", "playback", "-Z", "concrete-playback", "-p", "statime"]
-            if prof == "release":
-                cmd.append("--release")
-            cmd += ["--", tname]
+            cmd = ["cargo", "kani", "playback", "-Z", "concrete-playback", "-p", "statime", "--", tname]
             plog = os.path.join(rdir, "native_%s.log" % prof)
             env = dict(kani.ENV)
-            env["CARGO_TARGET_DIR"] = os.path.join(self.root, h.variant, "tgt_playback")
+            env["CARGO_TARGET_DIR"] = os.path.join(self.root, h.variant, "tgt_playback_" + prof)
+            if prof == "release":
+                # `cargo kani playback` has no --release; emulate what distinguishes the release profile for these
+                # properties: no debug assertions, no overflow checks
+                for k in ("DEV", "TEST"):
+                    env["CARGO_PROFILE_%s_DEBUG_ASSERTIONS" % k] = "false"
+                    env["CARGO_PROFILE_%s_OVERFLOW_CHECKS" % k] = "false"
             with open(plog, "w") as fh:
                 try:
                     rc = subprocess.call(cmd, cwd=v["repo"], stdout=fh, stderr=subprocess.STDOUT, env=env, timeout=900)
